@@ -130,10 +130,13 @@ def rule_INV(FA):
                 out.append(Inst('R-INV', key, 'ok', line, 'additional unchecked slice access is dominated by `index < len` of the same slice', props))
                 continue
             where = ['%s (%s)' % (fn_key(FA.closure_parent(s[0].f)).split('::', 1)[-1], s[2].get('line', '')) for s in und]
-            out.append(Inst('R-INV', key, 'violation', und[-1][2].get('line', ''),
+            # An additional unchecked operation is a reason to re-review, not a proof of a defect: restructurings that split a
+            # function (one site per specialisation) or decode in place legitimately add sites.  Reported as a note; the
+            # obligations themselves are decided by R-G / R-GUSE / R-E / R-LAY.
+            out.append(Inst('R-INV', key, 'note', und[-1][2].get('line', ''),
                             'safe API function `%s` reaches %d site(s) of unsafe `%s` without passing through another safe API function, the reviewed inventory has %d: '
                             'a new unchecked operation whose obligation is not discharged locally (no dominating `index < len`) and is not classified; sites: %s' % (
-                                k, n, prim, allowed, '; '.join(where[:8])), props,
+                                k, n, prim, allowed, '; '.join(where[:8])), props, nontrivial=True,
                             sample={'sites': where[:20]}))
     return out
 
